@@ -185,7 +185,10 @@ pub struct PanicInfo {
     pub file: String,
     pub line: u32,
     pub msg: String,
+    /// innermost smoltcp function on the stack ("" if harness code is innermost)
     pub func: String,
+    /// file of that frame, relative to /repo
+    pub smol_file: String,
 }
 
 thread_local! {
@@ -214,34 +217,35 @@ fn normalise_msg(m: &str) -> String {
     out
 }
 
-fn smoltcp_frame(bt: &str) -> String {
-    // first frame that belongs to smoltcp
+/// First backtrace frame that lies in smoltcp (/repo/src) or in the harness,
+/// whichever is innermost: returns (function, file) for a smoltcp frame, None
+/// when harness code is innermost.
+fn smoltcp_frame(bt: &str) -> Option<(String, String)> {
+    let mut prev_fn = String::new();
     for line in bt.lines() {
         let l = line.trim();
-        // lines look like "12: smoltcp::iface::...::func" (std Backtrace Display)
-        if let Some(pos) = l.find(": ") {
-            let sym = &l[pos + 2..];
-            if sym.starts_with("smoltcp::") || sym.starts_with("<smoltcp::") {
-                // strip hash suffix and closures
-                let mut s = sym.to_string();
-                if let Some(h) = s.rfind("::h") {
-                    if s.len() - h == 19 {
-                        s.truncate(h);
-                    }
+        if let Some(at) = l.strip_prefix("at ") {
+            if at.starts_with("/repo/src") {
+                let file = at.split(':').next().unwrap_or("").trim_start_matches("/repo/").to_string();
+                // strip generic arguments and closure markers from the function name
+                let mut f = prev_fn.clone();
+                if let Some(i) = f.find('<') {
+                    f.truncate(i);
                 }
-                let s = s.replace("::{{closure}}", "");
-                // keep the last two path segments
-                let segs: Vec<&str> = s.split("::").collect();
-                let n = segs.len();
-                return if n >= 2 {
-                    format!("{}::{}", segs[n - 2], segs[n - 1])
-                } else {
-                    s
-                };
+                let f = f.replace("{closure#0}", "closure").replace("{closure#1}", "closure");
+                return Some((f, file));
             }
+            if at.starts_with("./vkit/src/runner.rs") {
+                continue;
+            }
+            if at.starts_with("./v") || at.starts_with("/verif/") {
+                return None;
+            }
+        } else if let Some(pos) = l.find(": ") {
+            prev_fn = l[pos + 2..].to_string();
         }
     }
-    String::new()
+    None
 }
 
 pub fn install_panic_hook() {
@@ -258,11 +262,14 @@ pub fn install_panic_hook() {
             "panic".to_string()
         };
         let is_smoltcp = is_smoltcp_file(&file);
-        let func = if is_smoltcp || !file.starts_with("/verif") {
+        let (func, smol_file) = if is_smoltcp || !(file.starts_with("/verif") || file.starts_with("vkit/") || file.starts_with("vcheck/")) {
             let bt = std::backtrace::Backtrace::force_capture().to_string();
-            smoltcp_frame(&bt)
+            if std::env::var("VERIF_DEBUG_BT").is_ok() {
+                eprintln!("{}", bt);
+            }
+            smoltcp_frame(&bt).unwrap_or_default()
         } else {
-            String::new()
+            (String::new(), String::new())
         };
         let quiet = QUIET.with(|q| *q.borrow());
         if !quiet {
@@ -274,6 +281,7 @@ pub fn install_panic_hook() {
                 line,
                 msg,
                 func,
+                smol_file,
             })
         });
     }));
@@ -302,11 +310,11 @@ pub fn guarded<T>(f: impl FnOnce() -> T) -> Result<T, PanicInfo> {
 
 /// Key for a panic that originated in smoltcp (or in a dependency reached from it).
 pub fn panic_key(p: &PanicInfo) -> String {
-    let file = p
-        .file
-        .strip_prefix("/repo/")
-        .unwrap_or(&p.file)
-        .to_string();
+    let file = if !p.smol_file.is_empty() {
+        p.smol_file.clone()
+    } else {
+        p.file.strip_prefix("/repo/").unwrap_or(&p.file).to_string()
+    };
     format!("panic:{}:{}:{}", file, p.func, normalise_msg(&p.msg))
 }
 
@@ -314,7 +322,7 @@ pub fn panic_key(p: &PanicInfo) -> String {
 /// library (std, heapless, managed) while a smoltcp frame was on the stack
 /// and not in harness code.
 pub fn panic_in_smoltcp(p: &PanicInfo) -> bool {
-    is_smoltcp_file(&p.file) || (!p.file.starts_with("/verif") && !p.func.is_empty())
+    is_smoltcp_file(&p.file) || !p.smol_file.is_empty()
 }
 
 // ---------------------------------------------------------------- known findings
